@@ -173,7 +173,8 @@ theorem rel_createEmptyWal {p : PState} (h : Rel p) (w : Nat) (hw : ∀ x ∈ p.
     exact hw x hx
   · rw [apply_createWal]
     refine { inv := h.inv, wf := ⟨h.wf.1, nodup_update _ _ _ h.wf.2.1, h.wf.2.2⟩, cur := h.cur,
-             edits := h.edits, tables := h.tables, walMem := ?_, walImm := ?_, others := ?_, walMax := ?_ }
+             edits := h.edits, tables := h.tables, walMem := ?_, walImm := ?_, others := ?_, walMax := ?_,
+             manLe := h.manLe }
     · refine ⟨bs, ?_, hm⟩
       show lookup (update p.d.wals w []) p.c.wal = _
       rw [lookup_update, if_neg (by omega)]; exact hl
@@ -231,7 +232,7 @@ theorem reopen_ok {p : PState} (h : Rel p) (t1 t2 w' m' : Nat)
     (hw : ∀ x ∈ p.d.wals, x.1 < w') (hm : ∀ x ∈ p.d.manifests, x.1 < m') (s3 : State)
     (hr : run p.s (reopenActions p.s t1 t2) = some s3) :
     StepOk p { s := s3, d := (opsOf p (.reopen t1 t2 w' m')).foldl apply p.d,
-               c := { manifest := m', wal := w', immWal := none } } (opsOf p (.reopen t1 t2 w' m')) := by
+               c := { manifest := m', wal := w', immWal := none, manWal := w' } } (opsOf p (.reopen t1 t2 w' m')) := by
   have R := reopen_lsm h.inv hr
   generalize htabs : newTables p.s t1 t2 = tabs at R
   -- the old manifest is not the new one
@@ -275,10 +276,11 @@ theorem reopen_ok {p : PState} (h : Rel p) (t1 t2 w' m' : Nat)
     rel_other_manifests hR2 ms5 hnd5 hl5m
   -- 6. CURRENT names the new manifest: the image now corresponds to the recovered state
   have hR6 : Rel { s := s3, d := { d2 with manifests := ms5, current := some m' },
-                   c := { manifest := m', wal := w', immWal := none } } := by
+                   c := { manifest := m', wal := w', immWal := none, manWal := w' } } := by
     refine { inv := R.inv, wf := ⟨hnd5, hR2.wf.2.1, hR2.wf.2.2⟩, cur := rfl, edits := ?_, tables := ?_,
-             walMem := ?_, walImm := Or.inl ⟨rfl, R.imm⟩, others := ?_, walMax := ?_ }
-    · refine ⟨[snap, e2], hl5, by simp [walNoOf, snap, e2, Ctx.w0], ?_⟩
+             walMem := ?_, walImm := Or.inl ⟨rfl, R.imm⟩, others := ?_, walMax := ?_,
+             manLe := by simp [Ctx.w0] }
+    · refine ⟨[snap, e2], hl5, by simp [walNoOf, snap, e2], ?_⟩
       intro q
       have hv : q ∈ versionOf [snap, e2] ↔
           q ∈ levelPairs p.s.levels ∨ ∃ o ∈ tabs, (0, o.1) = q := by
@@ -307,8 +309,8 @@ theorem reopen_ok {p : PState} (h : Rel p) (t1 t2 w' m' : Nat)
       rcases mem_update hx' with hx' | hx'
       · exact Or.inl hx'
       · right; right; left
-        show x.1 < (none : Option Nat).getD w'
-        simpa using hw1' x hx'
+        show x.1 < w'
+        exact hw1' x hx'
     · intro x hx
       have hx' : x ∈ update d1.wals w' [] := hx
       left
@@ -338,7 +340,7 @@ theorem reopen_ok {p : PState} (h : Rel p) (t1 t2 w' m' : Nat)
     obtain ⟨bs, hlw, _⟩ := h.walMem
     exact hw _ (mem_of_lookup _ _ _ hlw)
   -- 8. the old manifest goes (after the WALs)
-  have hfin : ∀ (q : PState), Rel q → q.c = { manifest := m', wal := w', immWal := none } →
+  have hfin : ∀ (q : PState), Rel q → q.c = { manifest := m', wal := w', immWal := none, manWal := w' } →
       q.d.current = some m' → lookup q.d.manifests m' = some [snap, e2] →
       (q.d.manifests.map Prod.fst).Nodup →
       ok q.d (.removeManifest p.c.manifest) = true ∧
@@ -367,10 +369,10 @@ theorem reopen_ok {p : PState} (h : Rel p) (t1 t2 w' m' : Nat)
       (by show lookup (update (update d2.manifests m' []) m' [snap]) p.c.manifest = _
           rw [lookup_update, if_neg hmm, lookup_update, if_neg hmm])
   -- the chain up to the switch of CURRENT
-  have cpre : Chain (p.s, p.c) (s3, { manifest := m', wal := w', immWal := none }) p.d
+  have cpre : Chain (p.s, p.c) (s3, { manifest := m', wal := w', immWal := none, manWal := w' }) p.d
       (ctOps tabs ++ [Op.createWal w', .createManifest m', .appendManifest m' snap,
         .appendManifest m' e2, .setCurrent m']) := by
-    obtain ⟨c1, _⟩ := chain_completeTables (p.s, p.c) (s3, { manifest := m', wal := w', immWal := none })
+    obtain ⟨c1, _⟩ := chain_completeTables (p.s, p.c) (s3, { manifest := m', wal := w', immWal := none, manWal := w' })
       tabs (d := p.d) h R.fresh
     have hd1 : d1 = (ctOps tabs).foldl apply p.d := runOk_eq_foldl hrun1
     refine Chain.append c1 ?_
@@ -385,10 +387,9 @@ theorem reopen_ok {p : PState} (h : Rel p) (t1 t2 w' m' : Nat)
     rw [apply_setCurrent]; exact hR6
   have hd6 : (ctOps tabs ++ [Op.createWal w', .createManifest m', .appendManifest m' snap,
       .appendManifest m' e2, .setCurrent m']).foldl apply p.d = d6 := (runOk_eq_foldl hpre).symm
-  have hw0 : ({ manifest := m', wal := w', immWal := none } : Ctx).w0 = w' := by simp [Ctx.w0]
   rcases h.walImm with ⟨hin, _⟩ | ⟨wi, im, bs, hwi, _, hlt, hlI, _⟩
   · -- no immutable memtable: only the current WAL is removed
-    obtain ⟨hok7, hR7⟩ := rel_removeWal hR6 p.c.wal (by rw [hw0]; exact hwal_lt)
+    obtain ⟨hok7, hR7⟩ := rel_removeWal hR6 p.c.wal hwal_lt
     obtain ⟨hok8, hR8⟩ := hfin _ hR7 rfl rfl hl5 hnd5
     have hops : opsOf p (.reopen t1 t2 w' m') =
         (ctOps tabs ++ [Op.createWal w', .createManifest m', .appendManifest m' snap,
@@ -406,8 +407,8 @@ theorem reopen_ok {p : PState} (h : Rel p) (t1 t2 w' m' : Nat)
     exact Chain.cons _ _ _ (Or.inr hR6) hok7 (Chain.single (Or.inr hR7) hok8 (Or.inr hR8))
   · -- the immutable memtable's WAL first
     have hwi_lt : wi < w' := hw _ (mem_of_lookup _ _ _ hlI)
-    obtain ⟨hok7a, hR7a⟩ := rel_removeWal hR6 wi (by rw [hw0]; exact hwi_lt)
-    obtain ⟨hok7, hR7⟩ := rel_removeWal hR7a p.c.wal (by rw [hw0]; exact hwal_lt)
+    obtain ⟨hok7a, hR7a⟩ := rel_removeWal hR6 wi hwi_lt
+    obtain ⟨hok7, hR7⟩ := rel_removeWal hR7a p.c.wal hwal_lt
     obtain ⟨hok8, hR8⟩ := hfin _ hR7 rfl rfl hl5 hnd5
     have hops : opsOf p (.reopen t1 t2 w' m') =
         (ctOps tabs ++ [Op.createWal w', .createManifest m', .appendManifest m' snap,
